@@ -17,12 +17,13 @@ from quara.settings import Settings
 
 LEAN_EXTRA_SOURCES = ("C04Psd.lean", "C04Ineq.lean", "Psd.lean")
 PARTIAL = [
-    {"theorem": "projIneqCore_{feasible,vi,nearest,fix,idem}_partial, blocks_nearest_partial, gate_projIneq_nearest_partial",
-     "missing": "proved for eps_truncate_imaginary_part = 0 and an exact eigh result (U unitary, U diag(lam) U^H = input operator); "
-                "the effect of the 1e-13 truncation thresholds of truncate_hs is only bounded coordinate-wise (truncate_close) and float "
-                "accuracy of eigh is not covered; completeness of the matrix basis enters as hypothesis hspan (the clipped operator lies in "
-                "the real span of the basis), re-checked numerically by the harness for the bases quara ships; orthonormality of the operator "
-                "basis B is a hypothesis (that of the Choi basis B_a (x) conj(B_b) is derived: orthoN_kronBasis)"},
+    {"theorem": "projIneqCore_spec_partial, gate_projIneq_spec_partial, projIneqCore_idem_spec_partial, projIneqCore_fix_partial, "
+                "blocks_nearest_partial (and the general-family versions projIneqCore_{feasible,vi,nearest,idem}_partial with hspan)",
+     "missing": "proved for an exact eigh result (U unitary, U diag(lam) U^H = operator of the input) and eps_truncate_imaginary_part = 0; "
+                "projIneqCore_eps_partial bounds the effect of eps > 0 in exact arithmetic (no raise, every coordinate moves by < eps); float "
+                "accuracy of eigh and the rounding-level imaginary residue that makes the real code raise at scale ~1e3 (D13) are not covered. "
+                "Basis completeness is no longer a hypothesis (derived from orthonormality + Hermiticity + count d^2; the harness re-checks "
+                "these three numerically for every system it uses)"},
 ]
 TYPES = ("State", "Povm", "Gate", "MProcess")
 CLS = {"State": State, "Povm": Povm, "Gate": Gate, "MProcess": MProcess}
@@ -33,12 +34,18 @@ _SYS = {}
 
 
 def system(kind):
-    """kind: 'q' qubit, 't' qutrit, 'qq' two qubits, 'qt' qubit x qutrit (cached: quara caches sparse bases per system)"""
+    """kind: 'q' qubit, 't' qutrit, 'qq' two qubits, 'qt' qubit x qutrit, 'tq' qutrit x qubit (cached: quara caches sparse bases per system)"""
     if kind not in _SYS:
         c = {"q": lambda: qobj.csys("qubit"), "t": lambda: qobj.csys("qutrit"),
              "qq": lambda: qobj.csys("qubit", names=(0, 1)),
-             "qt": lambda: qobj.csys(["qubit", "qutrit"], names=(0, 1))}[kind]()
+             "qt": lambda: qobj.csys(["qubit", "qutrit"], names=(0, 1)),
+             "tq": lambda: qobj.csys(["qutrit", "qubit"], names=(0, 1))}[kind]()
         B = qobj.basis_mats(c)
+        # hypotheses of the Lean theorems about the operator basis (OrthoN, HermB, d*d elements), re-checked numerically
+        G = np.array([[np.trace(a.conj().T @ b) for b in B] for a in B])
+        if len(B) != c.dim ** 2 or np.max(np.abs(G - np.eye(len(B)))) > 1e-12 or \
+                max(float(np.max(np.abs(b - b.conj().T))) for b in B) > 1e-14:
+            raise RuntimeError(f"basis of system {kind!r} is not an orthonormal Hermitian family of d^2 matrices")
         _SYS[kind] = (c, B)
     return _SYS[kind]
 
@@ -235,6 +242,19 @@ def gen_param(g, typ, kind, m, scale, cls):
     nblk = {"State": 1, "Povm": m, "Gate": 1, "MProcess": m}[typ]
     if cls == "random":
         return dy(g, int(np.prod(shape_of(typ, c, m))), scale)
+    if cls == "lowpurity":
+        # noisy linear estimate of a rank-deficient mixed state: trace one, purity <= 1/2, slightly non-PSD (per block)
+        basis = op_basis(typ, kind)
+        out = []
+        for _ in range(nblk):
+            spec = np.sort(g.dirichlet(np.ones(max(1, D - 1))))[::-1] if D > 1 else np.ones(1)
+            spec = np.concatenate([0.9 * spec + 0.1 / max(1, D - 1), [0.0]]) if D > 1 else spec
+            M = rand_herm(g, D, 1.0, spec)
+            N = qobj.rand_hermitian(g, D, 1.0)
+            N = N - np.trace(N).real / D * np.eye(D)
+            M = M + 0.02 * N / np.linalg.norm(N)
+            out.append(coef_of(basis, M) * (scale if typ != "State" else 1.0))
+        return np.concatenate(out)
     if cls in ("degenerate", "psd", "boundary"):
         basis = op_basis(typ, kind)
         out = []
@@ -306,12 +326,22 @@ def err_kind(e):
     return type(e).__name__
 
 
+def site_base(site):
+    return site.split("-")[0]
+
+
 def call_site(typ, c, which, site, flag, x, m, tap=False):
     """run one projection entry point of the real code.  `x` are the stacked parameters of the full object; for flag True the
-    variable-level sites receive to_var(x).  Returns dict(result=stacked-or-var array | None, err, arg_before, arg_after, eigh)"""
+    variable-level sites receive to_var(x).  Closure sites come in three variants: `func` / `funcvar` (closure requested with the
+    explicit flag from an object carrying the same flag), `func-opp` / `funcvar-opp` (explicit flag, object carrying the OPPOSITE flag),
+    `func-dflt` / `funcvar-dflt` (flag not passed: the object's own flag, which is `flag`, must be used).
+    Returns dict(result=stacked-or-var array | None, err, arg_before, arg_after, eigh)"""
     cls = CLS[typ]
     out = dict(err=None, result=None, eigh=[])
-    holder = make(typ, c, of_var(typ, c, to_var(typ, c, x, flag), flag) if site != "obj" else x, flag)
+    hflag = (not flag) if site.endswith("-opp") else flag
+    kwargs = {} if site.endswith("-dflt") else {"on_para_eq_constraint": flag}
+    site = site_base(site)
+    holder = make(typ, c, of_var(typ, c, to_var(typ, c, x, flag), flag) if site != "obj" else x, hflag)
     if site == "obj":
         obj = make(typ, c, x, flag)
         arg = obj
@@ -329,12 +359,12 @@ def call_site(typ, c, which, site, flag, x, m, tap=False):
                 return np.array(getattr(cls, f"calc_proj_{which}_constraint_with_var")(c, var, on_para_eq_constraint=flag),
                                 dtype=np.float64)
         elif site == "func":
-            f = getattr(holder, f"func_calc_proj_{which}_constraint")(on_para_eq_constraint=flag)
+            f = getattr(holder, f"func_calc_proj_{which}_constraint")(**kwargs)
 
             def run():
                 return np.array(f(var), dtype=np.float64)
         else:
-            f = getattr(holder, f"func_calc_proj_{which}_constraint_with_var")(on_para_eq_constraint=flag)
+            f = getattr(holder, f"func_calc_proj_{which}_constraint_with_var")(**kwargs)
 
             def run():
                 return np.array(f(var), dtype=np.float64)
@@ -356,6 +386,8 @@ def call_site(typ, c, which, site, flag, x, m, tap=False):
 
 
 SITES = ("obj", "var", "func", "funcvar")
+CLOSURE_VARIANTS = ("func-opp", "funcvar-opp", "func-dflt", "funcvar-dflt")
+ALL_SITES = SITES + CLOSURE_VARIANTS
 
 
 # ----------------------------------------------------------------------------- correspondence
@@ -379,6 +411,7 @@ def basis_txt(kind):
 
 def eq_request(drv, typ, c, site, flag, arg, m):
     """arg: what the real entry point received (stacked parameters for obj, variables otherwise)"""
+    site = site_base(site)
     d = c.dim
     n = d * d
     s, t = 1 / np.sqrt(d), np.sqrt(d)
@@ -401,6 +434,7 @@ def eq_request(drv, typ, c, site, flag, arg, m):
 
 
 def ineq_request(drv, typ, kind, site, flag, arg, m, eigh):
+    site = site_base(site)
     c, _ = system(kind)
     d = c.dim
     n = d * d
@@ -433,12 +467,12 @@ def correspondence(ctx):
         typ, kind, m, x = cs["typ"], cs["kind"], cs["m"], cs["x"]
         c, _ = system(kind)
         for flag in (False, True):
-            for site in SITES:
+            for site in ALL_SITES:
                 r = call_site(typ, c, "eq", site, flag, x, m)
                 arg = r["arg_before"]
                 i = eq_request(drv, typ, c, site, flag, arg, m)
                 pend.append(("eq", typ, kind, site, flag, m, arg, r, i))
-                if typ == "MProcess" and site in ("var", "funcvar"):
+                if typ == "MProcess" and site_base(site) in ("var", "funcvar"):
                     # argument after the call, as modelled (pure since the repair of D5)
                     j = drv.ask("m_eq_var_after", "T" if flag else "F", m, n_of(c), qlist(arg))
                     pend.append(("eqafter", typ, kind, site, flag, m, arg, dict(r, result=r["arg_after"]), j))
@@ -455,7 +489,7 @@ def correspondence(ctx):
             kind, m, x = cs["kind"], cs["m"], cs["x"]
             c, _ = system(kind)
             for flag in (False, True):
-                for site in (SITES if (ctx.quick is False or cs["cls"] in ("random", "degenerate")) else ("obj", "var")):
+                for site in (ALL_SITES if (ctx.quick is False or cs["cls"] in ("random", "degenerate")) else ("obj", "var")):
                     r = call_site(typ, c, "ineq", site, flag, x, m, tap=True)
                     ctx.count(f"ineq {typ} {site} flag={flag} scale={SCALE_NAME.get(cs['scale'])} class={cs['cls']}")
                     if r["err"] == "imag":
@@ -548,7 +582,7 @@ def check_point(ctx, g, which, typ, kind, m, x, scale, cls, ncomp):
     bucket = SCALE_NAME.get(scale, "1")
     results = {}
     for flag in (False, True):
-        for site in SITES:
+        for site in ALL_SITES:
             rep = dict(rep0, flag=flag, site=site)
             r = call_site(typ, c, which, site, flag, x, m)
             ctx.case(("oracle", which, typ, kind, site, flag, m, tuple(np.asarray(x).tolist())))
@@ -627,7 +661,7 @@ def check_point(ctx, g, which, typ, kind, m, x, scale, cls, ncomp):
     # (3) object-level = variable-level, both flags
     for flag in (False, True):
         base = results.get(("var", flag))
-        for site in ("func", "funcvar"):
+        for site in ("func", "funcvar") + CLOSURE_VARIANTS:
             o = results.get((site, flag))
             if base is not None and o is not None and (base.shape != o.shape or np.max(np.abs(base - o), initial=0) > 1e-10 * max(1.0, float(np.max(np.abs(base), initial=0)))):
                 ctx.violate(sig(which, typ, site, flag, "obj-vs-var"),
@@ -678,6 +712,33 @@ def oracle(ctx, volume=1):
                 ctx.count(f"oracle {which} {cs['typ']} {cs['kind']} class={cs['cls']} scale={SCALE_NAME.get(cs['scale'])}")
                 check_point(ctx, cs["g"], which, cs["typ"], cs["kind"], cs["m"], cs["x"], cs["scale"], cs["cls"], ncomp)
     defect_d5(ctx)
+    basis_table_sequence(ctx, volume)
+    low_purity(ctx, volume)
+
+
+def basis_table_sequence(ctx, volume=1):
+    """composite systems of equal dimension and equal number of subsystems but different factor order (2x3, then 3x2), and
+    2x2, used one after the other in one process: every system must project with ITS OWN basis tables"""
+    g = ctx.npgen(8)
+    for kind in ("qt", "tq", "qq", "tq", "qt"):
+        for typ, m in (("State", 1), ("Povm", 3)):
+            for cls in (("random", "lowpurity") if typ == "State" else ("random",)):
+                for _ in range(volume):
+                    x = gen_param(g, typ, kind, m, 1.0, cls)
+                    ctx.count(f"oracle basis-table sequence {typ} {kind} class={cls}")
+                    check_point(ctx, g, "ineq", typ, kind, m, x, 1.0, cls, 3)
+
+
+def low_purity(ctx, volume=1):
+    """trace-one, low-purity (<= 1/2), slightly non-PSD inputs (noisy linear estimates of rank-deficient mixed states):
+    inside the 'Bloch ball' but not PSD for d > 2"""
+    g = ctx.npgen(9)
+    for kind in ("qq", "t", "q"):
+        for typ, m in (("State", 1), ("Povm", 2)):
+            for _ in range((2 if ctx.quick else 8) * volume):
+                x = gen_param(g, typ, kind, m, 1.0, "lowpurity")
+                ctx.count(f"oracle low-purity {typ} {kind}")
+                check_point(ctx, g, "ineq", typ, kind, m, x, 1.0, "lowpurity", 3)
 
 
 def defect_d5(ctx):
@@ -714,6 +775,11 @@ def replay(ctx, data):
     r = data["replay"]
     print("replaying", {k: v for k, v in r.items() if k != "x"})
     before = len(ctx.violations)
+    if r["system"] in ("qt", "tq"):
+        # the failing input was found in a sequence over composite systems of equal shape: use the sibling ordering first
+        sib = "tq" if r["system"] == "qt" else "qt"
+        cs_, _ = system(sib)
+        call_site("State", cs_, "ineq", "obj", False, gen_param(ctx.npgen(2), "State", sib, 1, 1.0, "random"), 1)
     check_point(ctx, ctx.npgen(1), r["which"], r["typ"], r["system"], r["m"], np.array(r["x"], dtype=float), r.get("scale", 1.0),
                 r.get("class", "random"), 8)
     for v in ctx.violations[before:]:
